@@ -351,6 +351,32 @@ def ghost_lemmas(en: E.Engine):
 
 
 XI = F('x.at')
+RHO = F('density.at')
+
+
+def density_ratios_contract(en: E.Engine):
+  """shallow_water.get_density_ratios: the inter-layer coupling of a stack of immiscible layers (top = layer 0).  The postcondition is the
+  hydrostatic statement, not the function's docstring (which has the indices transposed): the pressure force on layer i is the gradient of
+  sum_{j<i} (rho_j / rho_i) Phi_j + sum_{j>=i} Phi_j, so the off-diagonal coupling is rho_j / rho_i for the layers above i and 1 for those below."""
+  from dinosaur import shallow_water as sw
+  n = en.int('layers')
+  en.assume(n >= 1)
+  rho = E.SymSeq(n, lambda i: RHO(E.to_z3(i)), z3.RealSort(), 'density')
+  j_ = z3.Int('j')
+  en.assume(z3.ForAll([j_], z3.Implies(z3.And(j_ >= 0, j_ < n), RHO(j_) > 0)))
+  a, b = z3.Int('a'), z3.Int('b')
+  en.assume(z3.ForAll([a, b], z3.Implies(z3.And(a >= 0, a <= b, b < n), RHO(a) <= RHO(b)), patterns=[z3.MultiPattern(RHO(a), RHO(b))]))      # non-decreasing from the top
+  en.cover('requires: positive densities, non-decreasing from the top')
+  kind, D = en.invoke(en.load_function(sw.get_density_ratios), rho)
+  if kind == 'raise' or not matrix._is_mat(D):
+    en.ensure(f'get_density_ratios returns a matrix ({D})', False)
+    return
+  i, j = en.int('i'), en.int('j')
+  en.assume(z3.And(i >= 0, i < n, j >= 0, j < n))
+  en.ensure('layers x layers', z3.And(E.to_z3(D.rows) == n, E.to_z3(D.cols) == n))
+  en.ensure('D[i, j] == rho[j] / rho[i] for the layers above (j < i), 1 for the layers below (j > i), 0 on the diagonal',
+            D.get(i, j) == z3.If(j < i, RHO(j) / RHO(i), z3.If(j > i, z3.RealVal(1), z3.RealVal(0))))
+
 
 
 def integrals_contract(en: E.Engine):
@@ -446,6 +472,19 @@ def log_integral_contract(en: E.Engine):
             z3.Implies(R * (CA(N) - CA(k)) == geo_spec, R * up.get(k) == geo.get(k)))
 
 
+def replay_density(w):
+  import numpy as np
+  from dinosaur import shallow_water as sw
+  for rho in ([900.0, 1000.0, 1150.0], [1.0, 2.0], [3.0]):
+    rho = np.asarray(rho)
+    n = len(rho)
+    want = np.array([[rho[j] / rho[i] if j < i else (1.0 if j > i else 0.0) for j in range(n)] for i in range(n)])
+    got = np.asarray(sw.get_density_ratios(rho))
+    if not np.allclose(got, want, rtol=1e-14, atol=0):
+      return True, f'get_density_ratios({rho.tolist()}) = {got.tolist()}; hydrostatic coupling (rho[j]/rho[i] above, 1 below, 0 on the diagonal) = {want.tolist()}'
+  return False, 'get_density_ratios equals the hydrostatic coupling on the sampled density stacks'
+
+
 def replay_integrals(w):
   import numpy as np
   import jax
@@ -531,6 +570,10 @@ def clauses():
                  [PE + 'PrimitiveEquations._t_omega_over_sigma_sp', 'dinosaur.sigma_coordinates.cumulative_sigma_integral'], rc(t_omega_contract, 2), replay=replay_column, group='pyvc-col'),
           Clause('smt:nodal_log_pressure_tendency == - sum_j u.grad(ln ps)[j] dsigma[j] (all layer counts)', 'smt',
                  [PE + 'PrimitiveEquations.nodal_log_pressure_tendency', 'dinosaur.sigma_coordinates.sigma_integral'], rc(log_pressure_contract, 2), replay=replay_column, group='pyvc-col'),
+      ],
+      'C05sw': [
+          Clause('smt:get_density_ratios == hydrostatic inter-layer coupling: rho[j] / rho[i] for layers above, 1 for layers below, 0 on the diagonal (all layer counts)', 'smt',
+                 ['dinosaur.shallow_water.get_density_ratios'], rc(density_ratios_contract, 3), replay=replay_density, group='pyvc-col'),
       ],
       'C13': [
           Clause('smt:cumulative_sigma_integral / sigma_integral: prefix, suffix and total sums of x dsigma; ends at the total; down + up - total == local contribution; methods agree (all layer counts)', 'smt',
